@@ -45,6 +45,7 @@ def stepOp (acc : St × List String × List String) (op : String) : St × List S
   -- `hookn:<kind>` (a kind change from inside the watcher's creation) is outside the model: such scripts are judged by the oracle only
   | ["hookn", _] => (s, out, keep)
   | ["failu", n] => ({ s with failU := n :: s.failU }, out, keep)
+  | ["oku", n] => ({ s with failU := s.failU.filter (· != n) }, out, keep)
   | _ => (s, out ++ ["bad-op"], keep)
 
 def handleLine (fx : Fixes) (line : String) : String :=
